@@ -151,6 +151,12 @@ func (l *Link) dup() {
 }
 
 func (l *Link) inject(b []byte) {
+	// The receiver cannot tell an injected packet from a genuine one, so
+	// it is part of what was delivered.
+	l.w.order++
+	l.mu.Lock()
+	l.deliveredLog = append(l.deliveredLog, WireRec{ID: -1, Data: append([]byte{}, b...), At: l.w.now(), Order: l.w.order})
+	l.mu.Unlock()
 	l.inbox <- append([]byte{}, b...)
 }
 
@@ -424,6 +430,13 @@ func (w *World) spawnScripts(e *Endpoint, scripts [][]Op) {
 			e.runScript(name, ops)
 		})
 	}
+}
+
+func (w *World) now() time.Duration {
+	if w.s == nil {
+		return 0
+	}
+	return w.s.Now()
 }
 
 func (w *World) handshakeDone() bool {
